@@ -66,6 +66,7 @@ struct Case {
   int dim_max = 0;
   unsigned p = 2;
   bool big = false;                        // large sparse family: never run without a threshold
+  bool refusal_ok = false;                 // std::overflow_error is an acceptable answer (sizes beyond the encodings)
   value_t at(int i, int j) const { return d[size_t(i) * size_t(n) + size_t(j)]; }
   bool no_threshold() const { return !(thr < kMax); }
 };
@@ -85,9 +86,15 @@ struct Collector {
   }
 };
 
-std::string show(const std::vector<ref::Bar>& v) {
+std::string show(const std::vector<ref::Bar>& v) {  // sorted input; equal bars are printed once with a multiplicity
   std::ostringstream o;
-  for (auto& b : v) o << " H" << b.dim << "[" << b.b << "," << b.d << ")";
+  for (size_t i = 0; i < v.size();) {
+    size_t j = i;
+    while (j < v.size() && v[j] == v[i]) ++j;
+    o << " H" << v[i].dim << "[" << v[i].b << "," << v[i].d << ")";
+    if (j - i > 1) o << "x" << (j - i);
+    i = j;
+  }
   return o.str();
 }
 
@@ -557,15 +564,16 @@ void run_case(Tape& t, Ctx& ctx) {
       return (std::lgamma(double(n) + 1) - std::lgamma(double(k) + 1) - std::lgamma(double(n - k) + 1)) / std::log(2.0);
     };
     int e = std::min(c.dim_max, c.n - 2);
-    if (log2_binom(c.n, std::min(c.n / 2, e + 2)) + bc > 120) {
-      ctx.hit("big:dim-reduced-to-fit-128-bits");
-      c.dim_max = 15;
-      e = 15;
-    }
     // Known finding: TParams::dimension_t is int8_t and help1 hands min(dim_max, n-2) (an int) over without a check;
     // from 126 on, dim_max + 2 wraps (dim_max = 256 silently becomes 0).
     if (e > 125 && ctx.excluded("C11-dimension-int8-wrap")) {
       ctx.hit("excluded:C11-dimension-int8-wrap");
+      c.dim_max = e = 15;
+    }
+    if (e > 125) {
+      c.refusal_ok = true;  // (probe of the finding only) a repaired library may well refuse such sizes
+    } else if (log2_binom(c.n, std::min(c.n / 2, e + 2)) + bc > 120) {
+      ctx.hit("big:dim-reduced-to-fit-128-bits");
       c.dim_max = 15;
     }
   }
@@ -650,6 +658,7 @@ void run_case(Tape& t, Ctx& ctx) {
     if (!form_compiled(f)) continue;
     if (f == F_EUCL && c.pts.empty()) continue;
     if (c.n == 1 && (f == F_LOWER || f == F_UPPER || f == F_UP2LOW)) continue;  // no entry at all: nothing to give
+    try {
     bool variant = (forced_mask >> 7) & 1;
     if (f == F_UPPER && variant && ctx.excluded("C11-upper-converting-ctor")) {
       ctx.hit("excluded:C11-upper-converting-ctor");
@@ -693,6 +702,10 @@ void run_case(Tape& t, Ctx& ctx) {
         run_form(c, f, r, dm, c.thr, variant, col);
         compare(f, r, col, "");
       }
+    }
+    } catch (const std::overflow_error&) {  // "cannot encode all simplices ..." - only where the case allows a refusal
+      if (!c.refusal_ok) throw;
+      ctx.hit("refused:overflow_error");
     }
   }
 }
